@@ -367,7 +367,7 @@ def apply_middlewares(
 
 def deprecated(reason: str) -> Callable[[Fn], Fn]:
     def decorator(fn: Fn) -> Fn:
-        @functools.wraps
+        @functools.wraps(fn)
         def deprecated_fn(*args, **kwargs):
             with warnings.catch_warnings():
                 warnings.simplefilter("always", DeprecationWarning)
